@@ -4,6 +4,6 @@ Require Import MRB.Model.Types MRB.Model.Seq MRB.Spec.Pipe MRB.Model.Async MRB.M
 Extraction Language OCaml.
 Extraction "model.ml" Seq.init Seq.step Seq.run Seq.fresh Seq.succ_idx Seq.first_clone_id
   Pipe.a_init Pipe.sstep Pipe.ok_op Pipe.srun Pipe.a_avail Pipe.a_ring
-  Async.astep Async.a_init_state Async.future_of Async.direct_of Async.arun Async.refused Async.astep_inj Async.poll_inj Async.inj_ok
+  Async.astep Async.a_init_state Async.future_of Async.direct_of Async.arun Async.refused Async.astep_inj Async.poll_inj Async.inj_ok Async.register Async.set_base
   Trace.trace Trace.strong_profile Trace.profile_ok
   RAn.step_a RAn.exec_a RAn.init_n.
